@@ -48,9 +48,33 @@ def depfile_wiring(ctx):
     ctx.ob(R, 'CcBaseCompiler._call|-MMD -MF deps', ok, call.node,
            'the compiler is not asked to write a depfile when deps is '
            'given')
-    fl = repo.method(CC, 'deps_flavor')
-    ok = "'gcc'" in unparse(fl.node)
-    ctx.ob(R, 'CcBaseCompiler.deps_flavor|gcc', ok, fl.node, '')
+    # deps_flavor evaluated per concrete cc compiler class and C-family
+    # language: must be 'gcc' (so -MMD -MF, depfixer and -include apply to
+    # ordinary compilation *and* to precompiled headers)
+    from ..consteval import UNKNOWN, subst_eval
+    base = repo.cls(CC)
+    n_eval = 0
+    for ci in sorted(base.subclasses(), key=lambda c: c.fq):
+        o, langs = ci.find_attr('_langs')
+        if langs is None:
+            continue
+        table = const_eval(repo, o.module, langs, o)
+        if not isinstance(table, dict):
+            continue
+        oo, fl = ci.find_method('deps_flavor')
+        rets = Q.returns(fl)
+        Q.require(len(rets) == 1, 'deps_flavor: single return expected')
+        for lang in sorted(table):
+            if lang not in ('c', 'c++', 'objc', 'objc++'):
+                continue
+            n_eval += 1
+            v = subst_eval(repo, oo.module, rets[0].value,
+                           {'self.lang': lang, 'self._langs': table}, oo)
+            ctx.ob(R, 'deps_flavor|{}|{}'.format(ci.name, lang), v == 'gcc',
+                   fl, '{}.deps_flavor evaluates to {!r} for language {} '
+                   '(expected \'gcc\'): no depfile is generated, header '
+                   'changes do not rebuild'.format(ci.name, v, lang))
+    ctx.require_min(R, n_eval, 8, 'deps_flavor evaluations')
     mk = repo.func(CP + 'make_compile')
     # (1) deps kwarg
     a = [n for n in ast.walk(mk.node) if isinstance(n, ast.Assign) and any(
@@ -105,6 +129,18 @@ def depfile_wiring(ctx):
         ok = 'rule.output[0].path.addext(' in unparse(df[0].value)
         ctx.ob(R, 'make_compile|depfile-next-to-first-output', ok, df[0],
                'depfile name is not derived from the first output')
+    # the include operand is written as a Make target name (escaped spaces,
+    # '#', ...): reuse the emission-site analysis of C04
+    from ..rules import escape as E
+    table, members = E.escape_table(repo, E.MAKE_SYN)
+    sites = E.emission_sites(ctx, [E.MAKE_SYN + ':Makefile.write'],
+                             E.MAKE_SYN, members, E.classify_make)
+    inc_sites = [s_ for s_ in sites if 'i.name' in unparse(s_[1].node)]
+    ok = len(inc_sites) == 1 and inc_sites[0][1].syntaxes == {'target'}
+    ctx.ob(R, 'Makefile.write|include-operand-is-a-target-name', ok, None,
+           'the depfile named by -include is not written with '
+           'Syntax.target: a path with a space or # names a different file '
+           'and the optional include is silently skipped')
     # Makefile.include writes -include for optional
     w = repo.method('bfg9000.backends.make.syntax:Makefile', 'write')
     ok = "('-' if i.optional else '') + 'include '" in unparse(w.node)
